@@ -25,11 +25,11 @@ def main():
     ap.add_argument('--tier', default='quick')
     ap.add_argument('--skip-tests', action='store_true')
     a = ap.parse_args()
-    wt = a.wt or os.path.join('/tmp/mut', a.props[0])
+    wt = a.wt or '/tmp/mut/_seedtest'
     patch = os.path.join(os.path.abspath(a.mutdir), 'patch.diff')
     demo = os.path.join(os.path.abspath(a.mutdir), 'demo.py')
     res = {'mutdir': a.mutdir, 'props': a.props, 'worktree': wt}
-    sh('git checkout -- . && git clean -fdq -e out', cwd=wt)
+    sh('git checkout -- . && git clean -fdq -e out -e out2', cwd=wt)
     env = dict(os.environ, PYTHONPATH=wt, PYTHONHASHSEED='0')
     os.makedirs('/root/scratch/demo_run', exist_ok=True)
     rc, out = sh('/venv/bin/python %s' % demo, cwd='/root/scratch/demo_run', env=env, timeout=900)
@@ -62,7 +62,7 @@ def main():
                 except Exception as ex:  # noqa: BLE001
                     res['checks'][p].setdefault('keys', []).append(repr(ex))
     finally:
-        sh('git checkout -- . && git clean -fdq -e out', cwd=wt)
+        sh('git checkout -- . && git clean -fdq -e out -e out2', cwd=wt)
     caught = {p: bool(c['violations']) and c['rc'] == 1 for p, c in res['checks'].items()}
     res['caught'] = caught
     print(json.dumps(res, indent=1))
